@@ -44,27 +44,18 @@ MASSES = ['72', '72.0', '36.0', '0', '54.5']
 # ---------------------------------------------------------------------------
 # strategies
 
-def _funct(sec):
+def _functs(sec):
     if sec == 'dihedrals':
-        return st.sampled_from(['1', '9', '3'])      # proper dihedral function types only
-    return st.sampled_from(['1', '2', '6'])
+        return ['1', '9', '3']      # proper dihedral function types only
+    return ['1', '2', '6']
 
 
-def _line(sec, n):
-    spec = SECTIONS[sec]
-    idx = st.integers(0, n - 1)
-    if spec == 'all':
-        return st.fixed_dictionaries({'atoms': st.lists(idx, min_size=2, max_size=5), 'params': st.just([])})
-    if spec == 'vsn':
-        return st.fixed_dictionaries({'atoms': st.lists(idx, min_size=2, max_size=5),
-                                      'params': st.sampled_from(['1', '2']).map(lambda f: [f])})
-    return st.fixed_dictionaries({
-        'atoms': st.lists(idx, min_size=spec, max_size=spec),
-        'params': st.tuples(_funct(sec), st.lists(st.sampled_from(PARAM_TOKENS), max_size=3)).map(lambda t: [t[0]] + t[1]),
-    })
+# Lines are drawn as a few integers and turned into an explicit description by assemble() (no dependent draws).
+_RAW_LINE = st.fixed_dictionaries({'a': st.integers(0, 6 ** 5 - 1), 'k': st.integers(2, 5), 'f': st.integers(0, 2),
+                                   'p': st.lists(st.sampled_from(PARAM_TOKENS), max_size=3)})
 
 
-def _cond(inner, allow_empty_else=True):
+def _cond(inner):
     return st.fixed_dictionaries({
         't': st.just('cond'), 'kind': st.sampled_from(['ifdef', 'ifndef']), 'tag': st.sampled_from(TAGS),
         'then': st.lists(inner, min_size=1, max_size=2),
@@ -72,38 +63,62 @@ def _cond(inner, allow_empty_else=True):
     })
 
 
-def _section(n, plain=False):
-    def body(sec):
-        line = _line(sec, n)
-        if plain:
-            item = line
-        else:
-            item = st.one_of(line, line, line, _cond(line))
-        return st.fixed_dictionaries({'t': st.just('sec'), 'sec': st.just(sec), 'items': st.lists(item, min_size=1, max_size=3)})
-    return st.one_of(st.sampled_from(COMMON), st.sampled_from(SECTION_NAMES)).flatmap(body)
+def _section(plain=False):
+    item = _RAW_LINE if plain else st.one_of(_RAW_LINE, _RAW_LINE, _RAW_LINE, _cond(_RAW_LINE))
+    return st.fixed_dictionaries({'t': st.just('sec'), 'sec': st.one_of(st.sampled_from(COMMON), st.sampled_from(SECTION_NAMES)),
+                                  'items': st.lists(item, min_size=1, max_size=3)})
 
 
-def _block(name):
-    def with_n(n):
-        atom = st.fixed_dictionaries({
-            'name': st.sampled_from(ATOM_NAMES), 'atype': st.sampled_from(ATYPES), 'resid': st.integers(1, 3),
-            'resname': st.sampled_from(RESNAMES), 'cgnr': st.integers(1, 6),
-            'charge': st.one_of(st.none(), st.sampled_from(CHARGES)),
-            'mass': st.one_of(st.none(), st.sampled_from(MASSES)),
-        })
-        chunk = st.one_of(_section(n), _section(n), _section(n),
-                          _cond(_section(n, plain=True)).map(lambda c: dict(c, t='condsecs')))
-        return st.fixed_dictionaries({'name': st.just(name), 'nrexcl': st.integers(0, 3),
-                                      'atoms': st.lists(atom, min_size=n, max_size=n),
-                                      'body': st.lists(chunk, max_size=4)})
-    return st.integers(1, 5).flatmap(with_n)
+_ATOM = st.fixed_dictionaries({
+    'name': st.sampled_from(ATOM_NAMES), 'atype': st.sampled_from(ATYPES), 'resid': st.integers(1, 3),
+    'resname': st.sampled_from(RESNAMES), 'cgnr': st.integers(1, 6),
+    'charge': st.one_of(st.none(), st.sampled_from(CHARGES)),
+    'mass': st.one_of(st.none(), st.sampled_from(MASSES)),
+})
+_CHUNK = st.one_of(_section(), _section(), _section(), _cond(_section(plain=True)).map(lambda c: dict(c, t='condsecs')))
+_BLOCK = st.fixed_dictionaries({'suffix': st.sampled_from(['A', 'B', 'C']), 'nrexcl': st.integers(0, 3),
+                                'atoms': st.lists(_ATOM, min_size=1, max_size=5), 'body': st.lists(_CHUNK, max_size=4)})
+
+
+def _assemble_line(sec, raw, n):
+    digits, a = [], raw['a']
+    for _ in range(5):
+        digits.append((a % 6) % n)
+        a //= 6
+    spec = SECTIONS[sec]
+    if spec == 'all':
+        return {'atoms': digits[:raw['k']], 'params': []}
+    if spec == 'vsn':
+        return {'atoms': digits[:raw['k']], 'params': [['1', '2'][raw['f'] % 2]]}
+    functs = _functs(sec)
+    return {'atoms': digits[:spec], 'params': [functs[raw['f'] % len(functs)]] + list(raw['p'])}
+
+
+def assemble(raw):
+    blocks = []
+    for i, rb in enumerate(raw['blocks']):
+        n = len(rb['atoms'])
+
+        def section(chunk, n=n):
+            def item(it):
+                if it.get('t') == 'cond':
+                    return dict(it, then=[_assemble_line(chunk['sec'], l, n) for l in it['then']],
+                                **{'else': None if it['else'] is None else [_assemble_line(chunk['sec'], l, n) for l in it['else']]})
+                return _assemble_line(chunk['sec'], it, n)
+            return {'t': 'sec', 'sec': chunk['sec'], 'items': [item(it) for it in chunk['items']]}
+        body = []
+        for chunk in rb['body']:
+            if chunk['t'] == 'sec':
+                body.append(section(chunk))
+            else:
+                body.append(dict(chunk, then=[section(c) for c in chunk['then']],
+                                 **{'else': None if chunk['else'] is None else [section(c) for c in chunk['else']]}))
+        blocks.append({'name': 'M%d%s' % (i, rb['suffix']), 'nrexcl': rb['nrexcl'], 'atoms': rb['atoms'], 'body': body})
+    return {'blocks': blocks, 'layout': raw['layout']}
 
 
 def file_strategy(tier):
-    def body(names):
-        return st.fixed_dictionaries({'blocks': st.tuples(*[_block('M%d%s' % (i, nm)) for i, nm in enumerate(names)]).map(list),
-                                      'layout': st.integers(0, 2 ** 30)})
-    return st.lists(st.sampled_from(['A', 'B', 'C']), min_size=1, max_size=3).flatmap(body)
+    return st.fixed_dictionaries({'blocks': st.lists(_BLOCK, min_size=1, max_size=3), 'layout': st.integers(0, 2 ** 30)}).map(assemble)
 
 
 # ---------------------------------------------------------------------------
